@@ -68,7 +68,7 @@ ASSUMPTIONS = [
     "bypassed (`__wrapped__`), ops named '<op>[hint-bypassed]'",
 ]
 BOUNDS = {
-    "quick": dict(targets=["ab (all proposals)", "mid (prior, partial, posterior)", "cat (prior, guide, posterior)"], proposals=["prior", "guide-marginal", "guide-ref", "partial-ref", "posterior-ref", "aux-marginal"], K=[1, 2], args=1, obs="all", max_paths=4096, gaussian="K<=2, n_cont=2"),
+    "quick": dict(targets=["ab (all proposals)", "mid (prior, partial, posterior)", "cat (prior, guide)"], proposals=["prior", "guide-marginal", "guide-ref", "partial-ref", "posterior-ref", "aux-marginal"], K=[1, 2], args=1, obs="all", max_paths=4096, gaussian="K<=2, n_cont=2"),
     "thorough": dict(targets=["ab", "mid", "cat", "abc"], proposals=["prior", "guide-marginal", "guide-ref", "partial-marginal", "partial-ref", "posterior-marginal", "posterior-ref", "aux-marginal"], K=[1, 2, 3], args=2, obs="all", max_paths=32768, gaussian="K<=3, n_cont=2"),
 }
 JOBS = {"quick": 8, "thorough": 16}
@@ -939,10 +939,10 @@ def _run_gauss(pname, tier, seed):
 def _plan(tier):
     if tier == "quick":
         I, K2 = "Importance", "ImportanceK2"
-        plan = [("ab", pn, a) for pn in ("prior", "guide-marginal", "guide-ref", "partial-ref", "posterior-ref") for a in (I, K2)]
-        plan += [("ab", "aux-marginal", K2), ("ab", "prior", "ImportanceK1")]
-        plan += [("mid", "prior", I), ("mid", "prior", K2), ("mid", "partial-ref", I), ("mid", "partial-ref", K2), ("mid", "posterior-ref", K2)]
-        plan += [("cat", "prior", K2), ("cat", "guide-ref", I), ("cat", "posterior-ref", K2)]
+        plan = [("ab", pn, a) for pn in ("prior", "guide-marginal", "partial-ref") for a in (I, K2)]
+        plan += [("ab", "guide-ref", K2), ("ab", "posterior-ref", K2), ("ab", "aux-marginal", K2), ("ab", "prior", "ImportanceK1")]
+        plan += [("mid", "prior", K2), ("mid", "partial-ref", I), ("mid", "posterior-ref", K2)]
+        plan += [("cat", "prior", K2), ("cat", "guide-ref", I)]
         return plan
     plan = []
     for t in ("ab", "mid", "cat", "abc"):
